@@ -548,3 +548,52 @@ def c17(run):
         "harness records get_name / get_qualified_name, and Aidl::get_key; the trace spec compares with AidlSymbols.QNameOf / "
         "PlainNameOf (item = key, type resolving to an item = that item's key, members Owner::member, imports / package dotted). "
         "Non-trivial = distinct scenario in which some type symbol resolves to a project item.", nt_resolved_item_type)
+
+
+# --------------------------------------------------------------------------------------
+# C19: serde round trip
+# --------------------------------------------------------------------------------------
+def roundtrip_scenario(files, src, query=None):
+    ops = [{"op": "new", "i": 1}]
+    for f in files:
+        text = f["text"] if "text" in f else R.text_of(R.default_layout(f["toks"]))
+        ops.append({"op": "add", "i": 1, "id": f["id"], "text": text})
+    ops.append({"op": "validate", "i": 1, "detail": "digest"})
+    for f in files:
+        if query is None or f["id"] in query:
+            ops.append({"op": "roundtrip", "i": 1, "id": f["id"], "stage": "parsed"})
+            ops.append({"op": "roundtrip", "i": 1, "id": f["id"], "stage": "validated"})
+    return {"sid": "", "src": src, "ops": ops}
+
+
+def nt_roundtrip(sc, evs):
+    # non-trivial: a tree with a oneway method, a resolved type, a direction, an annotation or a doc
+    for e in evs:
+        if e["ev"] == "roundtrip":
+            for n in e.get("before", []):
+                if (n["c"] == "method" and n["ow"]) or len(n["rk"]) == 3 or n["a"] in ("in", "out", "inout") or n["ann"] or n["doc"]:
+                    return True
+    return False
+
+
+@plan("C19")
+def c19(run):
+    q = run.tier == "quick"
+    scs = []
+    for fam in ("dir", "ow", "sym") if q else ("dir", "ow", "sym", "cont", "res"):
+        for s in run.add_model("MC_Validate", env={"FAMILY": fam, "TIER": run.tier}):
+            scs.append(roundtrip_scenario(s["files"], f"mc-{fam}", query=[s.get("main", "a")]))
+    for k, t in enumerate((F.DOC_FRAME_1, F.DOC_FRAME_2, F.DOC_FRAME_3)):
+        scs.append(roundtrip_scenario([{"id": f"frame{k}", "text": t}], "frame"))
+    g = F.ProjGen(run.rng, "C19")
+    for _ in range(200 if q else 3000):
+        scs.append(roundtrip_scenario(g.project()["files"], "rnd-project"))
+    run.add(scs)
+    run.rule = ("Trees from the TLC-enumerated families 'dir' (all 17 resolved kinds x 4 directions x oneway), 'ow', 'sym' "
+                "(+ 'cont', 'res' in the thorough tier), three frame documents with annotations, documentation and all value "
+                "forms, and random projects; each tree - straight from parsing and after validation - is serialised with RON "
+                "0.7 and read back; the RoundTrip step of the specification leaves the abstract tree unchanged, so the trace "
+                "spec demands that the hand-written projection of the re-read tree equals the projection before, field by "
+                "field, and that Rust's == holds. Non-trivial = distinct scenario whose tree has a oneway method, a resolved "
+                "type, a direction, an annotation or documentation.")
+    return judge(run, nt_roundtrip, chunk_events=1200)
